@@ -210,18 +210,26 @@ def part_generate(ctx, res):
 def part_live(ctx, res):
     """TLC: termination (liveness, variant) on the step machine; action coverage."""
     cfg = "Rewrites.live.cfg" if ctx.quick else "Rewrites.live2.cfg"
-    r = ctx.tlc("Rewrites", cfg, workers=3, timeout=1800, coverage=True, heap="4g")
+    got = {}
+
+    def main():
+        got["r"] = ctx.tlc("Rewrites", cfg, workers=3, timeout=1800, coverage=True, heap="4g")
+
+    def chain():
+        # ... and on the long-chain family.
+        got["rc"] = ctx.tlc("Rewrites", "Rewrites.chainlive.cfg", workers=2, timeout=900, heap="3g")
+    run_parallel([main, chain])
+    r, rc = got["r"], got["rc"]
     acts = dict((m[0], int(m[1])) for m in re.findall(r"^<(\w+) line \d+, col \d+ to line \d+, col \d+ of module Rewrites>: (\d+):\d+", r["out"], re.M))
     need = ["AddEntry", "PickShape", "PickFamily", "PickQuery", "ChaseStep"]
     dead = [a for a in need if acts.get(a, 0) == 0]
     if dead:
         raise vlib.Inconclusive("vacuous: actions never taken in %s: %s" % (cfg, dead))
-    if "Checking temporal properties" not in r["out"] and "temporal properties" not in r["out"]:
-        raise vlib.Inconclusive("TLC did not check the temporal property in %s" % cfg)
-    # ... and on the long-chain family.
-    rc = ctx.tlc("Rewrites", "Rewrites.chainlive.cfg", workers=2, timeout=900, heap="3g")
-    if "temporal properties" not in rc["out"]:
-        raise vlib.Inconclusive("TLC did not check the temporal property in Rewrites.chainlive.cfg")
+    for x, name in ((r, cfg), (rc, "Rewrites.chainlive.cfg")):
+        if "temporal properties" not in x["out"]:
+            raise vlib.Inconclusive("TLC did not check the temporal property in %s" % name)
+    if rc["distinct"] < 10000:
+        raise vlib.Inconclusive("long-chain termination run is too small: %d states" % rc["distinct"])
     res["live"] = {"cfg": cfg, "states": r["distinct"], "actions": acts, "long_chain_states": rc["distinct"]}
 
 
